@@ -13,7 +13,8 @@ Record obs := mkObs {
   o_resp : list Z;                   (* amounts in the message response *)
   o_led : list ((Z * Z) * Z);        (* (account, denom) |-> change of the balance, for every entry that changed *)
   o_sup : list (Z * Z);              (* denom |-> change of the supply, for every supply that changed *)
-  o_pools : list (Z * Z)             (* registry afterwards: (counterparty denom, n of lpt-n) *)
+  o_pools : list (Z * Z);            (* registry afterwards: (counterparty denom, n of lpt-n) *)
+  o_par : params                     (* module parameters afterwards (query Params) *)
 }.
 
 Record case := mkCase {
@@ -25,7 +26,11 @@ Record case := mkCase {
 }.
 
 (** the observed world *)
-Record world := mkWorld { w_led : ledger; w_sup : amap Z Z; w_pools : list (Z * Z); w_now : Z }.
+Record world := mkWorld { w_led : ledger; w_sup : amap Z Z; w_pools : list (Z * Z); w_now : Z; w_par : params }.
+
+Definition par_eqb (p q : params) : bool :=
+  (p_fee p =? p_fee q) && (p_ufee p =? p_ufee q) && (p_tax p =? p_tax q)
+  && (p_cdenom p =? p_cdenom q) && (p_camt p =? p_camt q).
 
 Definition supv (sp : amap Z Z) (d : Z) : Z := match get d sp with Some x => x | None => 0 end.
 Definition apply_led (l : ledger) (ch : list ((Z * Z) * Z)) : ledger := fold_left (fun l e => set (fst e) (snd e) l) ch l.
@@ -56,7 +61,8 @@ Definition corr_step (s s' : state) (m : msg) (o : obs) (w' : world) : bool :=
   && led_eqb (led s') (w_led w')
   && sup_eqb (sup s') (w_sup w')
   && pools_eqb (pools s') (w_pools w')
-  && (now s' =? w_now w').
+  && (now s' =? w_now w')
+  && par_eqb (par s') (w_par w').
 
 (** ** C01 on the observations *)
 Definition view (w : world) (cp n : Z) : Z * Z * Z :=
@@ -82,6 +88,17 @@ Definition leg_code (ph : Z) (buy : bool) (w w' : world) (n din dout : Z) : Z :=
   else if buy then (if (2 <=? paid) && rule ph x y (paid - 2) recv then 4 else 0)
   else (if rule ph x y paid (recv + 1) then 3 else 0).
 
+(** the pools a swap order trades on, by the observed registry *)
+Definition leg_pools (ps : list (Z * Z)) (din dout : Z) : list Z :=
+  if din =? std then match pool_lookup ps dout with Some n => [n] | None => [] end
+  else if dout =? std then match pool_lookup ps din with Some n => [n] | None => [] end
+  else match pool_lookup ps din, pool_lookup ps dout with Some n1, Some n2 => [n1; n2] | _, _ => [] end.
+
+(** the recipient is the escrow address of a pool the order itself trades on: the observed reserve
+    change is then not the leg's (the coins bought come straight back); only the value clause applies *)
+Definition rcpt_is_leg_pool (ps : list (Z * Z)) (rcpt din dout : Z) : bool :=
+  existsb (fun n => rcpt =? pool_acct n) (leg_pools ps din dout).
+
 Definition first_nz (l : list Z) : Z := match filter (fun c => negb (c =? 0)) l with [] => 0 | c :: _ => c end.
 
 Definition c01_step (p : params) (m : msg) (o : obs) (w w' : world) : Z :=
@@ -90,7 +107,7 @@ Definition c01_step (p : params) (m : msg) (o : obs) (w w' : world) : Z :=
   if negb mono then 1
   else match m with
   | MSwap buy sender rcpt din ain dout aout _ =>
-      if negb (o_code o =? 0) || is_pool_acct rcpt then 0
+      if negb (o_code o =? 0) || rcpt_is_leg_pool (w_pools w) rcpt din dout then 0
       else if din =? std then
         match pool_lookup (w_pools w) dout with Some n => leg_code ph buy w w' n din dout | None => 2 end
       else if dout =? std then
@@ -112,13 +129,15 @@ Definition delta_ok (l l' : ledger) (exp : Z -> Z -> Z) : bool :=
 Definition sdelta_ok (sp sp' : amap Z Z) (exp : Z -> Z) : bool :=
   forallb (fun d => supv sp' d - supv sp d =? exp d) (keys sp ++ keys sp').
 
+(** ledger, supplies and registry as before (the parameters are looked at separately) *)
 Definition unchanged (w w' : world) : bool :=
   delta_ok (w_led w) (w_led w') (fun _ _ => 0) && sdelta_ok (w_sup w) (w_sup w') (fun _ => 0)
   && pools_eqb (w_pools w) (w_pools w').
 
 (** clause codes: 1 a failed message changed something; 2 swap balance sheet; 3 swap bound or
     deadline; 4 liquidity balance sheet; 5 liquidity bound or deadline; 6 supply frame;
-    7 registry; 8 plain transfer / block *)
+    7 registry; 8 plain transfer / block; 9 parameters (changed by anything but a valid
+    MsgUpdateParams of the authority, or not set to what that message says) *)
 Definition code_if (b : bool) (c : Z) : Z := if b then 0 else c.
 
 Definition c02_swap (buy : bool) (a r din ain dout aout deadline : Z) (w w' : world) : Z :=
@@ -225,11 +244,11 @@ Definition c02_remove_uni (a cp dtok min_tok exact_liq deadline : Z) (w w' : wor
       else code_if (pools_eqb (w_pools w) (w_pools w')) 7
   end.
 
-Definition c02_step (p : params) (m : msg) (o : obs) (w w' : world) : Z :=
+Definition c02_main (p : params) (m : msg) (o : obs) (w w' : world) : Z :=
   if negb (o_code o =? 0) then code_if (unchanged w w') 1
   else match m with
   | MSwap buy a r din ain dout aout deadline =>
-      if is_pool_acct r then 0 else c02_swap buy a r din ain dout aout deadline w w'
+      if rcpt_is_leg_pool (w_pools w) r din dout then 0 else c02_swap buy a r din ain dout aout deadline w w'
   | MAdd a dtok max_tok exact min_liq deadline => c02_add p a dtok max_tok exact min_liq deadline w w'
   | MRemove a dlpt wd min_std min_tok deadline => c02_remove a dlpt wd min_std min_tok deadline w w'
   | MAddUni a cp dtok exact min_liq deadline => c02_add_uni a cp dtok exact min_liq deadline w w'
@@ -238,39 +257,52 @@ Definition c02_step (p : params) (m : msg) (o : obs) (w w' : world) : Z :=
       code_if (delta_ok (w_led w) (w_led w') (fun a' d' => ind (at_ from d a' d') (- amt) + ind (at_ to d a' d') amt)
                && sdelta_ok (w_sup w) (w_sup w') (fun _ => 0) && pools_eqb (w_pools w) (w_pools w')) 8
   | MBlock _ => code_if (unchanged w w') 8
+  | MUpdateParams auth q => code_if (unchanged w w' && (auth =? acct_gov) && params_valid q) 9
   end.
+
+(** the parameters afterwards: what a successful MsgUpdateParams says, otherwise what they were *)
+Definition par_expected (m : msg) (o : obs) (w : world) : params :=
+  match m with
+  | MUpdateParams _ q => if o_code o =? 0 then q else w_par w
+  | _ => w_par w
+  end.
+
+Definition c02_step (p : params) (m : msg) (o : obs) (w w' : world) : Z :=
+  let c := c02_main p m o w w' in
+  if negb (c =? 0) then c else code_if (par_eqb (w_par w') (par_expected m o w)) 9.
 
 (** ** folding over a case *)
 Record acc := mkAcc { a_corr : Z; a_p1 : Z; a_c1 : Z; a_p2 : Z; a_c2 : Z }.
 
 Definition next_world (w : world) (m : msg) (o : obs) : world :=
   mkWorld (delta_led (w_led w) (o_led o)) (delta_sup (w_sup w) (o_sup o)) (o_pools o)
-          (match m with MBlock dt => w_now w + dt | _ => w_now w end).
+          (match m with MBlock dt => w_now w + dt | _ => w_now w end) (o_par o).
 
-Fixpoint check_from (p : params) (s : state) (w : world) (steps : list (msg * obs)) (i : Z) (a : acc) : acc :=
+(** the parameters in force at a step are the ones OBSERVED before it ([w_par w]) *)
+Fixpoint check_from (s : state) (w : world) (steps : list (msg * obs)) (i : Z) (a : acc) : acc :=
   match steps with
   | [] => a
   | (m, o) :: rest =>
       let s' := step s m in
       let w' := next_world w m o in
       let corr' := if (a_corr a <? 0) && negb (corr_step s s' m o w') then i else a_corr a in
-      let k1 := c01_step p m o w w' in
-      let k2 := c02_step p m o w w' in
+      let k1 := c01_step (w_par w) m o w w' in
+      let k2 := c02_step (w_par w) m o w w' in
       let a' := mkAcc corr'
                   (if (a_p1 a <? 0) && negb (k1 =? 0) then i else a_p1 a)
                   (if (a_p1 a <? 0) && negb (k1 =? 0) then k1 else a_c1 a)
                   (if (a_p2 a <? 0) && negb (k2 =? 0) then i else a_p2 a)
                   (if (a_p2 a <? 0) && negb (k2 =? 0) then k2 else a_c2 a) in
-      check_from p s' w' rest (i + 1) a'
+      check_from s' w' rest (i + 1) a'
   end.
 
 Definition init_state (c : case) : state :=
   mkState (apply_led [] (c_led c)) (apply_sup [] (c_sup c)) [] 1 (c_start c) (c_par c).
 Definition init_world (c : case) : world :=
-  mkWorld (apply_led [] (c_led c)) (apply_sup [] (c_sup c)) [] (c_start c).
+  mkWorld (apply_led [] (c_led c)) (apply_sup [] (c_sup c)) [] (c_start c) (c_par c).
 
 Definition check_all (c : case) : acc :=
-  check_from (c_par c) (init_state c) (init_world c) (c_steps c) 0 (mkAcc (-1) (-1) 0 (-1) 0).
+  check_from (init_state c) (init_world c) (c_steps c) 0 (mkAcc (-1) (-1) 0 (-1) 0).
 
 (** (first diverging step or -1, first step violating the property or -1, violated clause) *)
 Definition check_case_C01 (c : case) : Z * Z * Z := let a := check_all c in (a_corr a, a_p1 a, a_c1 a).
